@@ -96,6 +96,19 @@ func TestVerifC40(t *testing.T) {
 		_ = auth.AuthService.WriteUser(0, defs.User{Name: "bob", ID: uuid.New(), Password: h, Permissions: []string{defs.LogonPermission}})
 	}
 
+	// real asset files under the library path, so that Range requests reach the range arithmetic
+	settings.Set(defs.EgoLibPathSetting, tmp)
+
+	for _, name := range []string{"style.css", "assets/style.css", "a.txt", "assets/a.txt", "assets/sub/one.txt"} {
+		content := "body { color: red; }"
+		if strings.HasSuffix(name, "one.txt") {
+			content = "Z"
+		}
+
+		_ = os.MkdirAll(filepath.Dir(filepath.Join(tmp, name)), 0o755)
+		_ = os.WriteFile(filepath.Join(tmp, name), []byte(content), 0o644)
+	}
+
 	r := defineStaticRoutes()
 	defineNativeAdminHandlers(r)
 
